@@ -444,12 +444,20 @@ pub fn run_scheduled(plan: &Plan, rng: &mut Rng, replay_choices: Option<&[usize]
     };
     let stream = RecStream { log: log.clone(), script, gate: None, flush_calls: 0, before_call: Some(before_call) };
     let rec = LogRecorder { log: log.clone(), counters: counters.clone(), queue_len: queue_len.clone() };
-    let builder = BackgroundQueueBuilder::new()
-        .capacity(plan.cap)
-        .thread_name(writer_name)
-        .flush_interval(if plan.regime == 0 { Duration::from_secs(50) } else { Duration::from_micros(1) })
-        .shutdown_timeout(Duration::from_secs(3600))
-        .metrics_recorder_local::<dyn metrics::Recorder, _>(rec);
+    // the builder's setters in an order that depends on the plan (each setter keeps what the others set)
+    let mut builder = BackgroundQueueBuilder::new();
+    let mut rec = Some(rec);
+    let mut writer_name = Some(writer_name);
+    let rot = (plan.cap as usize + plan.regime as usize + plan.kind as usize + k as usize) % 5;
+    for i in 0..5 {
+        builder = match (i + rot) % 5 {
+            0 => builder.capacity(plan.cap),
+            1 => builder.thread_name(writer_name.take().unwrap()),
+            2 => builder.flush_interval(if plan.regime == 0 { Duration::from_secs(50) } else { Duration::from_micros(1) }),
+            3 => builder.shutdown_timeout(Duration::from_secs(3600)),
+            _ => builder.metrics_recorder_local::<dyn metrics::Recorder, _>(rec.take().unwrap()),
+        };
+    }
     let typed = plan.kind == 0;
     let (h0, join) = if typed {
         let (q, j) = builder.build::<Ent>(stream);
